@@ -587,6 +587,10 @@ func init() {
 	reg(rtPkg+".Now", func(in *Interp, fr *frame, fn *ssa.Function, args []Value) Value {
 		return in.now()
 	})
+	reg("reflect.TypeOf", func(in *Interp, fr *frame, fn *ssa.Function, args []Value) Value {
+		// reflection is not modelled: the result may be passed around but not used
+		return Iface{}
+	})
 	reg("os.Getuid", func(in *Interp, fr *frame, fn *ssa.Function, args []Value) Value { return in.tb.BV(64, 1000) })
 	reg("os.Getgid", func(in *Interp, fr *frame, fn *ssa.Function, args []Value) Value { return in.tb.BV(64, 1000) })
 	reg("os.Getpid", func(in *Interp, fr *frame, fn *ssa.Function, args []Value) Value { return in.tb.BV(64, 4242) })
